@@ -74,6 +74,8 @@ type T struct {
 	cl        client.Client
 	pingCb    int32
 	pongCb    int32
+	kept      []*protocol.Packet
+	keptText  []string
 	Codec     protocol.CodecType
 }
 
@@ -241,6 +243,7 @@ func (t *T) Do(cl client.Client, id string, cmd uint32, timeoutU int) *doResult 
 		r.Res, r.Err = cl.Do(context.Background(), &client.Request{Cmd: cmd, Body: &control.Heartbeat{Timestamp: int64(len(id)), HeartbeatId: tagOf(id)}}, client.RequestTimeout(t.U(timeoutU)))
 	}()
 	r.End = time.Now()
+	t.retain(r.Res)
 	if r.Err != nil {
 		r.ErrStr = r.Err.Error()
 	}
@@ -396,6 +399,7 @@ func cmdScn(args []string) int {
 			}
 		}()
 		s.Run(t)
+		t.checkRetained()
 	}()
 	select {
 	case <-done:
@@ -606,7 +610,37 @@ func cmdClient(args []string) int {
 
 // doTagged: a Do whose request body carries an explicit tag (not recorded as a named call)
 func doTagged(t *T, cl client.Client, cmd uint32, tag int32, timeoutU int) (*protocol.Packet, error) {
-	return cl.Do(context.Background(), &client.Request{Cmd: cmd, Body: &control.Heartbeat{Timestamp: 1, HeartbeatId: &tag}}, client.RequestTimeout(t.U(timeoutU)))
+	res, err := cl.Do(context.Background(), &client.Request{Cmd: cmd, Body: &control.Heartbeat{Timestamp: 1, HeartbeatId: &tag}}, client.RequestTimeout(t.U(timeoutU)))
+	t.retain(res)
+	return res, err
+}
+
+// retain: the application keeps (a sample of) the packets a call returned; checkRetained at the end of the scenario verifies that they
+// are still what they were — a returned packet must not share memory with buffers the connection reuses for later traffic
+func (t *T) retain(pk *protocol.Packet) {
+	if pk == nil || pk.Metadata == nil {
+		return
+	}
+	t.mu.Lock()
+	if len(t.kept) < 2000 {
+		t.kept = append(t.kept, pk)
+		t.keptText = append(t.keptText, fmt.Sprintf("%d/%x/%x", pk.Metadata.RequestId, pk.Body, pk.Metadata.Signature))
+	}
+	t.mu.Unlock()
+}
+
+func (t *T) checkRetained() {
+	t.mu.Lock()
+	kept, text := t.kept, t.keptText
+	t.mu.Unlock()
+	for i, pk := range kept {
+		if now := fmt.Sprintf("%d/%x/%x", pk.Metadata.RequestId, pk.Body, pk.Metadata.Signature); now != text[i] {
+			t.Check("do_returns_own_id", false, "a response returned by a call changed afterwards (request id/body/signature were %.120s, are %.120s): it shares memory with a buffer the connection reuses", text[i], now)
+			t.Check("tcp_reading_spec", false, "a returned response changed afterwards: %.100s -> %.100s", text[i], now)
+			t.Check("no_lost_wakeup", false, "the response a call returned was overwritten afterwards: %.100s -> %.100s", text[i], now)
+			return
+		}
+	}
 }
 
 type clientRequest = client.Request
